@@ -32,7 +32,9 @@ THEOREMS = [P + t for t in [
     "skeleton_ops_ok_round5", "gcd_skeleton_value_is_c12_loop", "sqrt_leftover_is_kernel_state",
     "scratch_formulas_regenerated", "memory_end_does_not_wrap",
     "skeleton_ops_ok_round6", "euclid_fix_sub_no_panic",
-    "div_skeletons_panic_only_on_zero_divisor", "div_panic_spec_unfold"]] + [
+    "div_skeletons_panic_only_on_zero_divisor", "div_panic_spec_unfold",
+    "addsub_skeletons_panic_arms", "sub_underflow_arm_unfold", "sub_skeleton_panics_iff_negative",
+    "bit_shift_skeletons_panic_arms"]] + [
     "Dashu.Props.C17Link." + t for t in ["gcd_skeleton_kernel_is_c12", "rawToAscii_ascii", "digit_writer_all_writes_in_bounds",
                                          "digit_writer_write_keeps_len",
                                          "gcd_large_skeleton_no_panic", "gcd_skeleton_panics_only_on_zero_zero",
@@ -151,8 +153,14 @@ FRONTIER = [
     "the division skeletons UBig / % div_rem and IBig div_euclid / rem_euclid / div_rem_euclid (round 7, Props/C17 "
     "div_skeletons_panic_only_on_zero_divisor, lemmas in Proofs/Mem/DivPanic.lean: only divideByZero, never for a non-zero divisor, always "
     "for an inline zero divisor; all forms, signs, operand words), "
-    "the Euclidean fix-up subtraction (euclid_fix_sub_no_panic) and the pow result-buffer length bound; for the other skeletons "
-    "(add/sub underflow arm, sqrt, pow and shift allocation arms, bit ops) it is observed in the compared streams, not proved",
+    "the Euclidean fix-up subtraction (euclid_fix_sub_no_panic), the pow result-buffer length bound, and (round 8, Props/C17, lemmas in "
+    "Proofs/Mem/AddSubPanic.lean; all forms, signs, ANY operand words) UBig + UBig, IBig + IBig, IBig - IBig: no panic arm; UBig - UBig: only "
+    "panic_negative_ubig, exactly under the branch conditions subUnderflowArm (addsub_skeletons_panic_arms, sub_underflow_arm_unfold) "
+    "and, for operands stored with the length of their value, iff a < b as values (sub_skeleton_panics_iff_negative); UBig & | ^, and_not, "
+    ">>: no panic arm; UBig << n: only allocTooMuch and none when n / W + len + 3 <= MAX_CAPACITY (bit_shift_skeletons_panic_arms). "
+    "Still observed in the compared streams only, not proved: sqrt / sqrt_rem, pow (its allocation arm through the final <<), mul / sqr, "
+    "the IBig bit operations and IBig shifts (sign glue over the proved UBig skeletons plus fSubOne / fNot / fAddOne), set_bit / clear_bit / "
+    "split_bits and the other usize-argument bit functions",
     "allocation failure (null from alloc/realloc) is not modelled: the allocator is assumed to succeed",
     "value-level histories of the public API (mem.val) are EXPLORATION: values against Int arithmetic and the layout invariant "
     "observed through repr_info after every step; the kernels between Repr and Buffer (add/mul/div/shift/...) are other "
@@ -195,7 +203,7 @@ EXPLANATION = ("PROVED (Lean, all histories by induction over the op list, all M
                "modelled unsafe block (unsafe_<file>_<line>); bump-allocator slices aligned, inside, pairwise disjoint; memory.rs layout "
                "arithmetic valid, MemoryAllocation::new's too-much arm dead, add_layout sufficient for its consumers; the pow result "
                "buffer's length bound; scratch sizes = regenerated formulas; the gcd skeleton's kernel = C12's loop and always "
-               "returns the gcd, so the gcd skeletons (UBig, IBig, all forms, any operand words) panic only on the documented gcd(0, 0) (gcd_skeleton_panics_only_on_zero_zero), likewise gcd_ext and the mixed UBig/IBig pairs (gcd_ext_skeleton_panics_only_on_zero_zero, mixed_gcd_skeleton_panics_only_on_zero_zero; kernel = C12's lehmerExt, gcd_ext_skeleton_kernel_is_c12); the division skeletons (UBig / % div_rem, IBig Euclidean family) panic only with divideByZero and only on a zero divisor (div_skeletons_panic_only_on_zero_divisor); DigitWriter in bounds + ASCII for all write sequences (link to C07). "
+               "returns the gcd, so the gcd skeletons (UBig, IBig, all forms, any operand words) panic only on the documented gcd(0, 0) (gcd_skeleton_panics_only_on_zero_zero), likewise gcd_ext and the mixed UBig/IBig pairs (gcd_ext_skeleton_panics_only_on_zero_zero, mixed_gcd_skeleton_panics_only_on_zero_zero; kernel = C12's lehmerExt, gcd_ext_skeleton_kernel_is_c12); the division skeletons (UBig / % div_rem, IBig Euclidean family) panic only with divideByZero and only on a zero divisor (div_skeletons_panic_only_on_zero_divisor); the add / sub skeletons: UBig + and IBig + - have no panic arm, UBig - UBig only panic_negative_ubig and — operands without a leading zero word — iff a < b (addsub_skeletons_panic_arms, sub_skeleton_panics_iff_negative); UBig & | ^ and_not >> none, << only the allocation panic (bit_shift_skeletons_panic_arms); DigitWriter in bounds + ASCII for all write sequences (link to C07). "
                "static-backed values read-only; shift.rs/primitive.rs block obligations; every mirrored public operation (see REFINED) is a history over the "
                "proved op alphabet, so canonical results incl. the compactness bound hold after arithmetic whatever the kernels write "
                "(arithmetic_histories_keep_invariant, invariant_says_canonical). "
@@ -234,7 +242,10 @@ LEVEL_TEXT = ("Machine-checked Lean 4 theorems over an executable ledger model o
               "documented gcd(0, 0) — theorems gcd_skeleton_panics_only_on_zero_zero, gcd_ext_skeleton_panics_only_on_zero_zero, "
               "mixed_gcd_skeleton_panics_only_on_zero_zero by link to C12's kernels —, the division skeletons of UBig and IBig's Euclidean family panic only with "
               "divideByZero and only for a zero divisor (div_skeletons_panic_only_on_zero_divisor), the Euclidean fix-up subtraction, the pow "
-              "result-buffer length bound).")
+              "result-buffer length bound, and — round 8 — UBig + / IBig + - have no panic arm, UBig - UBig panics only with "
+              "panic_negative_ubig and, for operands without a leading zero word, iff a < b (addsub_skeletons_panic_arms, "
+              "sub_skeleton_panics_iff_negative), UBig & | ^ and_not >> have none and << only the documented allocation panic "
+              "(bit_shift_skeletons_panic_arms)).")
 LEVEL_NOTE = ("Trusted: Lean kernel; axioms propext/Classical.choice/Quot.sound; vlib/extract.py for the two policy formulas; the "
               "harness incl. its counting allocator, the history generators (sampling) for the tie model<->code; Miri (support "
               "only). Not modelled: zeroize paths, Send/Sync impls, allocation failure; MemoryAllocation::new/Drop only as the scratch "
